@@ -105,7 +105,7 @@ func runHistory(c *vm.Ctx, r *vm.Rand, hi int, nops int, flavour string, big boo
 		reg, err = region.CreateWriter(fa)
 		open = func() (io.ReadWriteSeeker, error) { fa.Seek(0, 0); return fa, nil }
 	case "osfile":
-		st.path = filepath.Join(c.OutDir, fmt.Sprintf("r.%d.%d.mca", c.Shard, hi))
+		st.path = filepath.Join(c.OutDir, fmt.Sprintf("r.%s.%d.%d.mca", c.Mode, c.Shard, hi))
 		os.Remove(st.path)
 		reg, err = region.Create(st.path)
 		defer os.Remove(st.path)
